@@ -89,11 +89,11 @@ let () =
         let show = function
           | None -> "PANIC"
           | Some l ->
-            Printf.sprintf "argv=%s envp=%s cwd=%s in=%s out=%s err=%s det=%s data=%s"
+            Printf.sprintf "argv=%s envp=%s cwd=%s in=%s out=%s err=%s det=%s after=%s data=%s"
               (strs l.l_argv)
               (match l.l_env with None -> "inherit" | Some e -> strs (Env.format_env e))
               (match l.l_cwd with None -> "none" | Some d -> enc_units d)
-              (show_r l.l_in) (show_r l.l_out) (show_r l.l_err) (b2s l.l_detached)
+              (show_r l.l_in) (show_r l.l_out) (show_r l.l_err) (b2s l.l_detached) (b2s l.l_panics_after)
               (match l.l_data with None -> "none" | Some d -> enc_units d) in
         (match program (dec_env base) start ops (term t1) (term t2) with
          | Datatypes.Coq_inr i -> print_endline ("panic_at " ^ string_of_int (int_of_n i))
